@@ -332,7 +332,7 @@ def compare_tokens(rec, real, cmap):
     exp = spec_tokens(rec, cmap)
     got, bad_run = real_tokens(toks)
     oc = rec["oc"]
-    exp_err = None if oc == "eof" else (oc[1], oc[2])
+    exp_err = None if oc[0] == "eof" else (oc[1], oc[2])
     got_err = classify_error(err)
     if bad_run:
         return ("lineno", f"line numbers differ inside one tag-interior run: {bad_run}", {"exp": exp, "got": got})
@@ -354,9 +354,152 @@ def compare_tokens(rec, real, cmap):
 
 def error_lineno_drift(rec, real):
     oc = rec["oc"]
-    if oc == "eof" or real[1] is None:
+    if oc[0] == "eof" or real[1] is None:
         return None
     got = classify_error(real[1])
     if got and got[0] == oc[1] and got[1] != oc[2]:
         return {"spec": oc, "real": real[1]}
     return None
+
+
+# --------------------------------------------------------------------------
+# input generators (syntax only)
+# --------------------------------------------------------------------------
+TEXT_BODIES = ["a", "_", "n", "t", "w", "nn", "_n", "n_", "rn", "r", "a_", "__", "_t", "n_t", "an", "-", "+"]
+TAG_BODIES = {
+    "block": ["_B_", "B", "_nB_", "wB_n", "_B"],
+    "var": ["_V_", "V", "n_V", "_V_n_"],
+    "rawopen": ["_R_", "R", "nR_"],
+    "rawclose": ["_E_", "E", "_En"],
+}
+
+
+def comment_bodies(cfg):
+    """Comment bodies with delimiter look-alikes (never the comment end, never
+    ending in a modifier character)."""
+    j = "".join
+    bs, be, vs, ve, cs = j(cfg["bs"]), j(cfg["be"]), j(cfg["vs"]), j(cfg["ve"]), j(cfg["cs"])
+    out = ["_a_", "", "a", "_an_", "n", "_" + bs + "_B_" + be + "_", vs + "a", "a" + ve + "_", cs + "_a", "a-_", "a+a", "_na_n"]
+    ce = j(cfg["ce"])
+    return [b for b in out
+            if ce not in b + ce[:-1] and not b.startswith(("-", "+")) and not b.endswith(("-", "+"))]
+
+
+def raw_lookalikes(cfg):
+    """Text for raw bodies that looks like tags but is not the endraw tag."""
+    j = "".join
+    bs, be, vs, ve, cs, ce = (j(cfg[k]) for k in ("bs", "be", "vs", "ve", "cs", "ce"))
+    return [bs + "_Ea_" + be, bs, be, vs, ve, cs, ce, bs + "-", "E", "R"]
+
+
+def gen_structured(rng, cfg, n, rich=True):
+    """A random well-formed piece sequence of about n pieces for cfg."""
+    ps = []
+    in_raw = False
+    cb = comment_bodies(cfg)
+    look = raw_lookalikes(cfg)
+    while len(ps) < n or in_raw:
+        closing = in_raw and (len(ps) >= n or rng.random() < 0.35)
+        x = rng.random()
+        if closing:
+            p = P("rawclose", rng.choice(SIGNS), rng.choice(SIGNS),
+                  rng.choice(TAG_BODIES["rawclose"]) if rich else "_E_")
+            in_raw_next = False
+        elif x < 0.42:
+            body = rng.choice(TEXT_BODIES if rich else ["a", "_", "n"])
+            if in_raw and rich and rng.random() < 0.3:
+                body = rng.choice(look)
+            p = text(body)
+            in_raw_next = in_raw
+        else:
+            kind = rng.choice(["block", "block", "comment", "comment", "var", "var", "rawopen"])
+            l = rng.choice(SIGNS)
+            r = rng.choice(SIGNS if kind in ("block", "comment") else ("", "-"))
+            if kind == "comment":
+                b = rng.choice(cb) if rich else "_a_"
+                if b == "" and (l or r):
+                    b = "_"
+            else:
+                b = rng.choice(TAG_BODIES[kind]) if rich else TAG_BODIES[kind][0]
+            p = P(kind, l, r, b)
+            in_raw_next = in_raw or kind == "rawopen"
+        if ps:
+            f, g = flat(ps[-1], cfg), flat(p, cfg)
+            if f and g and f[-1] == "r" and g[0] == "n":
+                continue
+        ps.append(p)
+        in_raw = in_raw_next
+    return ps
+
+
+def ends_ws(ps, cfg):
+    f = [ch for p in ps for ch in flat(p, cfg)]
+    return bool(f) and f[-1] in "_tvwnr"
+
+
+def at_line_start(ps, cfg):
+    f = [ch for p in ps for ch in flat(p, cfg)]
+    return not f or f[-1] in "nr"
+
+
+def gen_line_structured(rng, cfg, n):
+    """Piece sequences for configurations with line statement / line comment
+    prefixes: ordinary pieces plus whole-line statements and line comments.
+    Shapes the documentation does not determine are not generated: a line
+    statement followed by a blank line, a line tag right after whitespace that
+    a '-' modifier removed, whitespace in front of a mid-line line comment."""
+    ps = []
+    in_raw = False
+    while len(ps) < n or in_raw:
+        if in_raw:
+            if rng.random() < 0.5:
+                ps.append(text(rng.choice(["a", "_", "n", "an_"])))
+            else:
+                ps.append(P("rawclose", rng.choice(SIGNS), rng.choice(SIGNS), "_E_"))
+                in_raw = False
+            continue
+        prev_dash = False
+        for q in reversed(ps):
+            if q["k"] == "text" and all(ch in "_tvwnr" for ch in q["b"]):
+                continue
+            prev_dash = q["k"] not in ("text", "lstmt", "lcomment") and q["r"] == "-"
+            break
+        x = rng.random()
+        if x < 0.25 and cfg["lsp"] and at_line_start(ps, cfg) and not prev_dash:
+            last = len(ps) >= n - 1 and rng.random() < 0.3
+            ps.append(P("lstmt", b=rng.choice(["_B", "B", "_B_", "tB"]), i=rng.choice(["", "", "__", "t", "_v"]),
+                        t="" if last else rng.choice(["n", "n", "_n", "rn"])))
+            if last:
+                break
+            # next line must not be blank
+            ps.append(text(rng.choice(["a", "a_", "an"])) if rng.random() < 0.6 else
+                      P("block", rng.choice(["", "+"]), rng.choice(SIGNS), "_B_"))
+        elif x < 0.45 and cfg["lcp"] and not prev_dash and (at_line_start(ps, cfg) or not ends_ws(ps, cfg)):
+            indent = rng.choice(["", "__", "t"]) if at_line_start(ps, cfg) else ""
+            ps.append(P("lcomment", b=rng.choice(["_a", "", "a_a", "_" + "".join(cfg["bs"]) + "_a"]), i=indent))
+            ps.append(text(rng.choice(["n", "na", "n_", "rn"])))
+        elif x < 0.7:
+            ps.append(text(rng.choice(["a", "_", "n", "an", "n_", "a_", "nn"])))
+        else:
+            kind = rng.choice(["block", "comment", "var", "rawopen"])
+            l = rng.choice(SIGNS)
+            r = rng.choice(SIGNS if kind in ("block", "comment") else ("", "-"))
+            ps.append(P(kind, l, r, {"block": "_B_", "comment": "_a_", "var": "_V_", "rawopen": "_R_"}[kind]))
+            in_raw = kind == "rawopen"
+        if len(ps) >= 2:
+            f, g = flat(ps[-2], cfg), flat(ps[-1], cfg)
+            if f and g and f[-1] == "r" and g[0] == "n":
+                ps.pop()
+    return ps
+
+
+PLAIN_ALPHABET = ["a", "_", "t", "v", "w", "n", "r", "rn", "{", "%", "#", "}", "-", "+", "<", ">", "[", "]", "!", "="]
+
+
+def gen_plain(rng, cfg, n):
+    """A random text of n characters without any delimiter start of cfg."""
+    starts = ["".join(cfg[k]) for k in ("bs", "vs", "cs", "lsp", "lcp") if cfg[k]]
+    while True:
+        s = "".join(rng.choice(PLAIN_ALPHABET) for _ in range(n))
+        if not any(d in s for d in starts):
+            return s
